@@ -76,7 +76,7 @@ impl Rng {
 
 /// Collects output lines and coverage statistics.
 pub struct Out {
-    w: std::io::BufWriter<std::io::Stdout>,
+    w: std::io::BufWriter<Box<dyn Write>>,
     pub stats: BTreeMap<String, u64>,
     pub cases: u64,
 }
@@ -87,7 +87,13 @@ impl Default for Out {
 
 impl Out {
     pub fn new() -> Self {
-        Out { w: std::io::BufWriter::new(std::io::stdout()), stats: BTreeMap::new(), cases: 0 }
+        // Program logs (`msg!`) are printed straight to stdout by solana-msg on native targets, so
+        // the runner passes a separate file for the protocol stream (HARNESS_OUT_FILE).
+        let sink: Box<dyn Write> = match std::env::var("HARNESS_OUT_FILE") {
+            Ok(p) if !p.is_empty() => Box::new(std::fs::File::create(p).expect("cannot create HARNESS_OUT_FILE")),
+            _ => Box::new(std::io::stdout()),
+        };
+        Out { w: std::io::BufWriter::new(sink), stats: BTreeMap::new(), cases: 0 }
     }
     /// one correspondence case: request and the implementation's canonical response
     pub fn case(&mut self, req: &str, resp: &str) {
